@@ -171,7 +171,28 @@ SIM_SCENARIO(scen_c14, "c14", "C14", 6000000, 30000) {
         put_all(mf, false); finish(true, 1); second_round(mf, false, 1);
         break;
     }
-    case 5: {   // continue_node with two predecessors fires once per pair of signals
+    case 5: if (sim::draw(3, "dynamic_edge") == 0) {
+        // an edge into a continue_node is made while its new predecessor already sends: the message is either not seen at
+        // all (no edge yet) or counted as one of TWO predecessors; the node must not fire before its other predecessor
+        // has signalled, and after one more signal from each it has fired exactly once
+        world.ns[0].limit = 0; world.ns[1].limit = 0; world.ns[2].limit = 0;
+        int fired = 0, gap = (int)sim::draw(12, "edge_gap");
+        broadcast_node<continue_msg> p1(g), p2(g);
+        continue_node<continue_msg> c(g, [&](const continue_msg&) { enter(2, -1); ++fired; leave(2); return continue_msg(); });
+        make_edge(p1, c);
+        d.add(hx::fmt("continue_node: second predecessor connected while it sends (gap %d)", gap)); d.publish();
+        std::vector<std::function<void()>> fns;
+        fns.push_back([&] { for (int i = 0; i < gap; ++i) sim::upoint(); make_edge(p2, c); });
+        fns.push_back([&] { for (int i = 0; i < 6; ++i) sim::upoint(); world.idle_declared = false; p2.try_put(continue_msg()); });
+        hx::run_fibers(fns);
+        g.wait_for_all();
+        SIM_CHECK(fired == 0, "oracle:continue-node", "a continue_node fired %d time(s) on the message of a predecessor that was being connected, before its other predecessor had signalled", fired);
+        world.idle_declared = false;
+        p1.try_put(continue_msg()); p2.try_put(continue_msg());
+        g.wait_for_all(); world.idle_declared = true;
+        SIM_CHECK(fired == 1, "oracle:continue-node", "a continue_node with two predecessors fired %d times after 1 signal of the first and 2 of the second (connected while sending)", fired);
+        break;
+    } else {   // continue_node with two predecessors fires once per pair of signals
         world.ns[0].limit = 0; world.ns[1].limit = 0; world.ns[2].limit = 0;
         broadcast_node<continue_msg> start(g);
         continue_node<continue_msg> a(g, [&](const continue_msg&) { enter(0, -1); leave(0); return continue_msg(); });
